@@ -142,7 +142,8 @@ Proof. exact postfix_left_to_right. Qed.
 Print Assumptions C02_postfix_left_to_right.
 
 (* COMPLETENESS at token level (proofs/RoundTripX.v): for every expression e of the language [ex] (identifiers,
-   constants, binary, prefix and postfix operators, sizeof, subscripts, member accesses, calls, ?:, assignments, comma), the tokens
+   constants, binary, prefix and postfix operators, sizeof of expressions and of type names, casts to type names made of
+   simple type specifiers, subscripts, member accesses, calls, ?:, assignments, comma), the tokens
    [xt true e] - e written with ONLY the parentheses that C's precedence and associativity make necessary (the
    generator's reduce_parentheses rule for binary operators; operands of other operators in parentheses unless they
    are postfix expressions) - are parsed by the whole-parser model to exactly e: the parser groups unparenthesised
